@@ -10,7 +10,7 @@ PY = "/venv/bin/python"
 CHECKS = {
     "C01": ("property-based testing (Hypothesis): generated component programs vs independent wire-matrix reference model",
             "Generated-input search: thousands of component programs (all kinds, boundary-weighted values) whose U/U_full are compared entry-wise with an independently written ordered-product model; unitarity, dimension and leading-block clauses asserted directly. Exploration, not proof: sizes <= 7 modes / 40 ops.",
-            "Trusts numpy linear algebra and the reference model's self-tests; entries compared at 1e-6 (arccos near reflectivity 1 is ill-conditioned, DESIGN 7.2), unitarity of U_full at 1e-9; a complete sweep of all short programs over a small alphabet is exhaustive.", "3/C01"),
+            "Trusts numpy linear algebra and the reference model's self-tests; entries compared at 1e-9 (1e-6 only when a beam splitter lies within 1e-6 of full reflection, where arccos is ill-conditioned, DESIGN 7.2), unitarity of U_full at 1e-9; circuits of 31-40 modes included; a complete sweep of all short programs over a small alphabet is exhaustive.", "3/C01"),
     "C02": ("property-based testing (Hypothesis) of circuit-addition trees vs wire-level reference model, plus exhaustive enumeration of two-addition placements",
             "Generated trees of additions (nesting <= 3, heralds with in != out, any declaration order, lossy shorthands) compared through heralded transition amplitudes with a reference model that implements the C02 wording; a finite core of two successive heralded additions is enumerated exhaustively.",
             "Trusts own permanent (self-tested against the n! definition) and numpy; compares visible behaviour only; mode arguments also given as numpy integers; groups nested inside groups with ancillas at both levels have their own generator.", "3/C02"),
@@ -32,7 +32,7 @@ CHECKS["C06"] = ("property-based testing (Hypothesis): Sampler distribution unde
 
 CHECKS["C07"] = ("property-based testing (Hypothesis): every sampling method vs exact detected/heralded/post-selected reference distribution; deterministic per-sample predicates plus Pearson chi-square at p < 1e-9",
     "Generated circuits, inputs, detector settings, post-selection, min_detection, N and seeds for the five sampling methods; each returned state is checked deterministically (length, heralds removed, predicates, support), counts and the accepted fraction statistically against an exact reference built from own permanent and own detector model; seed reproducibility and sample counts asserted exactly.",
-    "Convergence clause is statistical (bias below ~3 sigma/sqrt(N) invisible); chi-square approximation with pooled cells; scipy.stats.chi2 trusted; frequencies of sample_N_outputs compared only when the accepted mass is >= 1e-5 (below that the documented truncation is not small against it).", "3/C07")
+    "Convergence clause is statistical (bias below ~3 sigma/sqrt(N) invisible; runs of 2-4 million samples over 50-200 outcomes make over-dispersion visible too); seeded calls are repeated in a second interpreter with another hash salt; chi-square approximation with pooled cells; scipy.stats.chi2 trusted; frequencies of sample_N_outputs compared only when the accepted mass is >= 1e-5 (below that the documented truncation is not small against it).", "3/C07")
 CHECKS["C08"] = ("stateful property-based testing (Hypothesis RuleBasedStateMachine): snapshots of every pooled circuit/state compared after each generated API call, including generated rejected calls",
     "Histories of up to 25/40 calls over a pool of circuits (add, +, copy, edits, rewrites, simulate/sample/analyse/Reck/display/tomography/qiskit conversion, rejected calls); invariant after every step: nobody but the receiver of a successful mutating call changes, a raising call changes nothing, module-level gate tables unchanged.",
     "Observable state = (n_modes, input_modes, heralds, U_full bytes, spec length, internal modes); tomography experiments are fed fake counts (only argument immutability is asserted there).", "3/C08")
@@ -48,13 +48,13 @@ CHECKS["C11"] = ("stateful property-based testing (Hypothesis RuleBasedStateMach
 
 CHECKS["C12"] = ("property-based testing (Hypothesis): generated qiskit circuits converted and compared, amplitude by amplitude (own permanent), with qiskit's Operator up to one common scalar; refusals classified",
     "Generated qiskit circuits over the full supported gate set on 2-4 qubits (any qubit pairs/triples, either order, both post-selection modes, forced patterns of three-qubit gates followed by two-qubit gates and swaps between entangling gates); accepted amplitudes for every basis input must be k x Operator(qc) with the stated |k|^2, nothing accepted outside the qubit subspace; a refusal must be a ValueError in a legitimate class.",
-    "qiskit.quantum_info.Operator is the reference; own permanent; at most 3 heralded gates per circuit; circuits built from several quantum registers included; a conversion that does not return within 10 s of CPU time is reported as a violation (hang).", "3/C12")
+    "qiskit.quantum_info.Operator is the reference; own permanent; at most 3 heralded gates per circuit (5-6 qubit layered circuits: at most 10 photons, a generated subset of 8 basis inputs when more than 8); circuits built from several quantum registers included; a conversion that does not return within 10 s of CPU time is reported as a violation (hang).", "3/C12")
 CHECKS["C13"] = ("exhaustive enumeration of the finite gate/option/mode-pair table plus property-based testing (Hypothesis) of rotation angles; amplitudes from own permanent vs Kronecker-algebra gate matrices",
     "Every named gate and option, all 360 (1680) SWAP mode-pair placements and the invalid options are enumerated completely; rotation angles are generated; each amplitude matrix must be k x the named matrix with the stated |k|^2, heralded gates must not leak outside the qubit subspace, Simulator agrees on all basis inputs.",
-    "Standard gate definitions; own permanent; finite part exhaustive, angles sampled.", "3/C13")
+    "Standard gate definitions; own permanent; finite part exhaustive, angles sampled (incl. up to 1e13 and all multiples of pi/4), SWAP rails sampled within 70 modes.", "3/C13")
 CHECKS["C14"] = ("property-based testing (Hypothesis): structured and random unitaries / heralded lossless circuits mapped through Reck; reconstruction, phase range, error-model bounds and seed reproducibility asserted",
     "Generated unitaries of 11 structured kinds and products (exact and near zeros), generated heralded circuits, generated error models (Constant/Gaussian/TopHat per quantity) and seeds; mapped circuit structure, unitary equality, herald equality, phase range, bounds of every drawn value, identical circuit for identical seed, (sub-)unitarity.",
-    "Lossless circuits only; Gaussian bounds keep >= 0.3 sigma each side; phase interval closed at float(2 pi); unitaries rounded to 10-11 decimals are used when lightworks itself accepts them as unitary.", "3/C14")
+    "Lossless circuits only (zero-valued loss elements and Unitary objects extended after construction included); noisy maps repeated in a second interpreter with another hash salt; Gaussian bounds keep >= 0.3 sigma each side; phase interval closed at float(2 pi); unitaries rounded to 10-11 decimals are used when lightworks itself accepts them as unitary.", "3/C14")
 CHECKS["C15"] = ("property-based testing (Hypothesis): generated dual-rail preparation circuits, exact noiseless experiment callback (own permanent), reconstruction compared with Kronecker-algebra state; requested circuits matched bijectively to measurement settings",
     "Generated base circuits on 1-3 qubits (arbitrary local unitaries, library gates, post-selected and heralded entangling gates); density matrix, Hermiticity, trace, fidelity, the exact set of requested circuits (3^n, bijective, base followed by basis changes), base circuit unchanged, and a second process() after an in-place edit; thorough tier varies PYTHONHASHSEED per shard.",
     "Exact outcome weights are passed as counts, also with last-digit rounding variations; post-selected gates are only followed by local gates; base circuits with heralds declared directly on them included.", "3/C15")
